@@ -5,6 +5,8 @@ import DarkluaModel.Rules.Witness
 import DarkluaModel.C08.Thm
 import DarkluaModel.C06.Whole
 import DarkluaModel.C06.CompoundWhole
+import DarkluaModel.C06.InterpFormat
+import DarkluaModel.C06.CompoundGuard
 /-!
 # C06 — the Luau-lowering rules preserve program behaviour: property theorems (local lemmas)
 
@@ -464,14 +466,19 @@ example : isOk (execS call0 ρ0 3 env28 f28Witness σ28) = true ∧
     isOk (execS call0 ρ0 3 env28 (RemoveFloorDivision.processStatement f28Witness s28).1 σ28) = true := by
   decide +kernel
 
-/-- the statement hook, under the invariant the scope visitor maintains (every local of the environment
-is known to the tracker): wherever `x //= y` succeeds the hook's output succeeds. Introduces temporaries:
-to be proved with the heap-insensitive lifting; currently supported by the execution oracle. -/
-def floordiv_stmt_tracked : Prop :=
-  ∀ (st : Stmt) (s : RemoveFloorDivision.State) (N : NumOps) (call : CallFn N) (ρ : ExtOracle N) (k : Nat) (env : Env N)
-    (σ σ' : State N) (c : Ctl N), (∀ p ∈ env.locals, s.tracker.isUsed p.1 = true) →
-    execS call ρ k env st σ = .ok c σ' →
-    ∃ c' σ'', execS call ρ k env (RemoveFloorDivision.processStatement st s).1 σ = .ok c' σ''
+/-- **the statement hook on `t //= v`** (the nested `remove_compound_assignment` run on that statement,
+with this processor's tracker — F28 fixed): under the guard of `compound_partial` the output is reached
+from the input by a chain of stage-3 links relative to the dead sets without generated names
+(`C06/HeapOn.lean`): each link is an `HR` step, i.e. (fundamental theorem `Sem.Heap.fund`) on states
+related up to a partial injection of cells and in environments that agree outside the dead names, both
+statements have related outcomes — same success / error / timeout, same values, same external calls.
+(The `//` the output still contains is lowered afterwards by the expression hook: `floordiv_on_numbers`.) -/
+theorem floordiv_stmt_links (t v : Expr) (s : RemoveFloorDivision.State)
+    (hok : okS Compound.cGuard (.cassign .idiv t v)) :
+    Chain (HeapOn.GkS Sem.Heap.Cx.none Compound.Dok) (.cassign .idiv t v)
+      (RemoveFloorDivision.processStatement (.cassign .idiv t v) s).1 := by
+  rw [RemoveFloorDivision.processStatement_idiv]
+  exact (allOn_fuel Compound.hooksOn_compound _).st _ _ hok
 
 /-! ## `remove_continue` -/
 
@@ -571,10 +578,13 @@ theorem interp_single_value (d : Nat) (e : Expr) (σ : State N)
     | timeout => simp
 
 /-- the general case (two or more segments ⇒ `string.format("…%s…", tostring(v1), …)` with `%` doubled):
-same values and same order of effects; the format string is scanned with one budget unit per byte by
-the semantics' `string.format`, so equality holds for budgets above the length of the format string.
-NOT proved here (needs the induction over segments against `Sem.formatAux`); covered by the execution
-oracle (texts with `%`, `%%`, `%s`, `%d`, every value kind, `__tostring` objects). -/
+same values and same order of effects. PROVED: the core — `string.format` on the generated format string
+with the stringified values returns exactly the text of the interpolation, without effect, for budgets
+above the length of the scan (`interp_format_text`, `format_reproduces` in `C06/InterpFormat.lean`).
+NOT proved: the evaluation around it (the values and their `tostring` calls thread the state in the same
+order; needs `string.format` / `tostring` to be the library functions at EVERY intermediate state, and the
+library call spends two more budget levels than the interpolation, cf. `interp_single_value`); covered by
+the execution oracle (texts with `%`, `%%`, `%s`, `%d`, every value kind, `__tostring` objects). -/
 def interp_format_general : Prop :=
   ∀ (segs : List Seg) (s : RemoveInterpolatedString.State) (N : NumOps) (call : CallFn N) (ρ : ExtOracle N)
     (env : Env N) (σ : State N), s.tracker.isUsed "string" = false → s.tracker.isUsed "tostring" = false →
@@ -729,6 +739,13 @@ theorem compound_partial (b : Block) (hg : okB Compound.cGuard b) (ρ : ExtOracl
     runProgram ρ n externs (RemoveCompoundAssign.apply b) = runProgram ρ n externs b :=
   Compound.remove_compound_refines_lift b hg ρ n externs
 
+/-- the same with the DECIDABLE guard `Compound.gB` (what the driver evaluates on every generated
+program: op `c06.guard`; `Compound.gB_sound`) -/
+theorem compound_partial_decidable (b : Block) (hg : Compound.gB b = true) (ρ : ExtOracle N) (n : Nat)
+    (externs : List String) :
+    runProgram ρ n externs (RemoveCompoundAssign.apply b) = runProgram ρ n externs b :=
+  compound_partial b (Compound.gB_sound b hg) ρ n externs
+
 /-- `getT().x += 1; getT()[key()] *= y` -/
 def compoundSample : Block :=
   .mk [.cassign .add (.field (.call (.var "getT") none .tuple []) "x") (.num 0x3FF0000000000000),
@@ -749,7 +766,8 @@ theorem isTmp_length {n : String} (h : Compound.isTmp n) : 13 ≤ n.length := by
   have : "__DARKLUA_VAR".length = 13 := by decide
   simp [RemoveCompoundAssign.varPrefix, String.length_append, this]
 
--- … and the sample satisfies the guard
+-- … and the sample satisfies the guard (decidably, and by hand)
+example : Compound.gB compoundSample = true := by decide +kernel
 example : okB Compound.cGuard compoundSample := by
   have key : ∀ n, Compound.isTmp n → n ≠ "getT" ∧ n ≠ "key" ∧ n ≠ "y" := fun n hn => by
     have := isTmp_length hn
